@@ -22,6 +22,8 @@ EVIDENCE = dict(
 )
 
 NAN = float("nan")
+import re as _re  # noqa: E402
+
 UNIVERSE = {
     "int": {"values": [None, 3, 0, 10 ** 30],
             "ops": [("min", (0,)), ("min", (3,)), ("min", (5,)), ("max", (0,)), ("max", (3,)), ("max", (5,)),
@@ -44,6 +46,11 @@ UNIVERSE = {
                     "ops": [("alphabet", ("abc{}",)), ("alphabet", ("{0}ab%s",)), ("contains", ("zz",)), ("contains", ("{",)),
                             ("contains", ("%s",)), ("contains", ("{x}",)), ("regex", ("a{2}",)), ("regex", ("^z",)),
                             ("regex", ("^[{}%]",)), ("len", (3,)), ("len", (..., 2)), ("len", (9, ...))]},
+    # objects that are ALMOST the right kind of argument: compiled patterns (str / bytes, with flags), bytes, str subclasses
+    "str#almost": {"facade": "str", "values": [None, "abc", "ABC"],
+                   "ops": [("regex", (_re.compile("b"),)), ("regex", (_re.compile(b"b"),)), ("regex", (_re.compile("ab", _re.I),)),
+                           ("regex", (b"b",)), ("contains", (b"b",)), ("alphabet", (b"abc",)), ("len", (3,)), ("len", (1, ...)),
+                           ("contains", ("b",)), ("alphabet", ("abcABC",)), ("regex", ("B",))]},
     "list": {"values": [None, [schema.int, schema.str], [schema.int, ...], schema.int],
              "ops": [("len", (2,)), ("len", (1,)), ("len", (1, ...)), ("len", (3, ...)), ("len", (..., 2)), ("len", (..., 1)),
                      ("len", (0, 5)), ("len", (0, ...)), ("len", (0,)), ("len", (..., 0)), ("len", (0, 0))]},
